@@ -370,6 +370,20 @@ class RecordTemplate:
                     items.append(('text', self.fmt(st.value, loopvars)))
                 elif isinstance(st.value, ast.List) and not st.value.elts:
                     self.listvar = name
+                elif isinstance(st.value, ast.ListComp) and len(st.value.generators) == 2 and not any(g.ifs for g in st.value.generators) \
+                        and isinstance(st.value.generators[0].target, ast.Name) and isinstance(st.value.generators[1].target, ast.Name) \
+                        and isinstance(st.value.elt, ast.Name) and st.value.elt.id == st.value.generators[1].target.id \
+                        and self._is_sig_call(st.value.generators[1].iter) is not None and unparse(self._is_sig_call(st.value.generators[1].iter)) == st.value.generators[0].target.id:
+                    # [s for e in <children> for s in e.get_signature()]: the signatures of the children, flattened, in order
+                    self.listvar = name
+                    g0 = st.value.generators[0]
+                    it = self.canon(g0.iter, loopvars)
+                    lv = dict(loopvars)
+                    lv[g0.target.id] = f'${len(loopvars)}'
+                    self.emitted.append(f'⟦{it}⟧' + self.canon(ast.Name(id=g0.target.id, ctx=ast.Load()), lv))
+                    if it == CHILDREN:
+                        self.emits_children = True
+                    self.own_last = False
                 else:
                     self.locals[name] = self.canon(st.value, loopvars)
                 continue
